@@ -9,7 +9,7 @@ use crate::rng::Rng;
 use crate::sched::{RunSetup, Strategy, MAXT};
 use crate::types::HashKind;
 
-pub const SIM_PROPS: [&str; 14] = ["C01", "C03", "C04", "C05", "C06", "C07", "C08", "C10", "C11", "C12", "C13", "C14", "C15", "C18"];
+pub const SIM_PROPS: [&str; 15] = ["C01", "C03", "C04", "C05", "C06", "C07", "C08", "C10", "C11", "C12", "C13", "C14", "C15", "C18", "C19"];
 
 pub struct Plan {
     pub program: Program,
@@ -150,6 +150,15 @@ pub fn gencfg(prop: &str, tier: &str, rng: &mut Rng) -> GenCfg {
             g.allow_set = true;
             g.hold_guard = 40;
         }
+        "C19" => {
+            g.mix = Mix::per_key();
+            g.mix.iter_all = 1;
+            g.mix.clear = 0;
+            g.ops = (0, 4);
+            g.threads = (2, 5);
+            g.allow_set = true;
+            g.shapes = vec![Shape::Plain, Shape::AtThreshold, Shape::AtThreshold, Shape::Tiny, Shape::Tiny, Shape::Tree, Shape::AlmostTree, Shape::AlmostTree, Shape::TreeAtThreshold, Shape::Unallocated, Shape::Unallocated];
+        }
         "C14" => {
             g.mix = Mix::zero();
             g.mix.remove = 5;
@@ -174,7 +183,13 @@ fn base_plan(prop: &str, tier: &str, run_seed: u64) -> Plan {
     let gc = gencfg(prop, tier, &mut crng);
     let mut prng = rng.fork(1);
     let scripted = matches!(prop, "C01" | "C03" | "C05" | "C06" | "C07" | "C11") && (crng.chance(1, 12) || std::env::var("VERIF_SCRIPTED").is_ok());
-    let program = if scripted { gen::gen_shrinking_tree_race(&mut prng, prop != "C01") } else { gen::gen_program(&mut prng, &gc) };
+    let program = if scripted {
+        gen::gen_shrinking_tree_race(&mut prng, prop != "C01")
+    } else if prop == "C19" {
+        gen::gen_par_program(&mut prng, &gc)
+    } else {
+        gen::gen_program(&mut prng, &gc)
+    };
     let mut srng = rng.fork(2);
     let (stall_pct, spurious) = match prop {
         "C01" => (15, false),
@@ -558,6 +573,22 @@ pub fn judge(prop: &str, p: &Program, r: &RunResult, opts: &ExecOpts, js: &mut J
             out.extend(oracle::quiescent_consistency(p, r));
             out.extend(oracle::panic_propagation(r, opts));
         }
+        "C19" => {
+            // every item of a parallel bulk insertion is an insert of unknown return value that
+            // takes effect between the call and its return; the final state is part of the history
+            out.extend(run_lin(p, r, js));
+            out.extend(oracle::quiescent_consistency(p, r));
+            out.extend(oracle::par_collects(r));
+            out.extend(oracle::memory(r));
+            out.extend(oracle::drops(r));
+            js.bump("parts_published_to_the_pool", r.par[0]);
+            js.bump("parts_run_by_a_helper_thread", r.par[1]);
+            js.bump("parts_run_by_the_publishing_thread", r.par[2]);
+            js.bump("publisher_waited_for_a_part_in_flight", r.par[3]);
+            js.bump("parallel_bulk_operations", r.history.iter().filter(|h| matches!(h.op, Op::ParExtend(..) | Op::ParCollect(..))).count() as u64);
+            js.bump("parallel_collects", r.history.iter().filter(|h| matches!(h.op, Op::ParCollect(..))).count() as u64);
+            js.bump("runs_without_background_operations", p.threads.iter().all(|t| t.iter().all(|o| matches!(o, Op::ParExtend(..) | Op::ParCollect(..) | Op::ParHelp(_)))) as u64);
+        }
         _ => {}
     }
     out
@@ -569,6 +600,7 @@ pub fn runs_for(prop: &str, tier: &str) -> u64 {
         "C15" => 150_000,
         "C12" => 3_000,
         "C18" => 20_000,
+        "C19" => 200_000,
         _ => 400_000,
     };
     match tier {
@@ -695,6 +727,17 @@ pub fn reach_goals(prop: &str, agg: &Agg) -> serde_json::Value {
         }
         "C18" => {
             goals.push(("callback panics injected", agg.faults[5]));
+        }
+        "C19" => {
+            goals.push(("parts run by a helper thread", ex("parts_run_by_a_helper_thread")));
+            goals.push(("parts run by the publishing thread", ex("parts_run_by_the_publishing_thread")));
+            goals.push(("publisher waited for a part in flight", ex("publisher_waited_for_a_part_in_flight")));
+            goals.push(("parallel collects", ex("parallel_collects")));
+            goals.push(("resize with a helper joining", ev(Ev::HelperJoined)));
+            goals.push(("table initialisation race lost", ev(Ev::InitTableLost)));
+            goals.push(("insert lost the empty-bin CAS", ev(Ev::CasInsertLost)));
+            goals.push(("serde documents with a repeated key", ex("serde_documents_with_repeated_keys")));
+            goals.push(("serde stream faults fired", ex("serde_stream_faults_fired")));
         }
         _ => {}
     }
